@@ -18,15 +18,15 @@ CLAIMED = {
        "operator files; IEEE-754 behaviour of rustc's f64 and Lean's Float (both the platform double) is assumed, compared bit-for-bit.",
   technique="Lean 4 proof over translated operator tables + differential correspondence", ref="DESIGN.md §6 C08"),
  "C14": dict(
-  text="Lean 4 theorems, discharged by kernel `decide` over the complete finite quantifier (all 35^2 ordered pairs of binary "
-       "operators, every prefix x binary, prefix x postfix, binary x postfix combination): the model of pest 2.7.14's Pratt loop "
+  text="Lean 4 theorems, discharged by kernel `decide` over the complete finite quantifier (all 35^2 ordered pairs AND all 35^3 = 42 875 "
+       "ordered triples of binary operators, every prefix x binary, prefix x postfix, binary x postfix combination): the model of pest 2.7.14's Pratt loop "
        "run on the operator table regenerated from parser/src/lib.rs groups each as the 14-level table regenerated from "
        "docs/operators.md prescribes; table = doc table level by level with associativity; grammar alternatives are all in the "
        "table with the right affix; ordered choices never split a multi-character operator; Rule->BinOperator map total, injective, "
        "display = grammar literal. Tied by running the real PRATT_PARSER (tree-building closures) against the model and an "
        "independent doc-table parser on pairs, triples and random operator strings, and by values of unparenthesised expressions.",
   note="Lean kernel; translator readers for the .op(...) chain, the pest grammar, the Markdown table; hand model of pest's "
-       "pratt_parser.rs pinned by version + SHA-256 (a dependency bump breaks the tie); triples are exhaustive only in the thorough stream.",
+       "pratt_parser.rs pinned by version + SHA-256 (a dependency bump breaks the tie); the triple theorem takes ~2 min of kernel evaluation when a table changes (cached otherwise).",
   technique="Lean 4 proof (decide over translated operator/doc tables) + differential correspondence", ref="DESIGN.md §6 C14"),
  "C09": dict(
   text="Lean 4 theorems for every length, index and optional (start, stop, step) in Int: s[i] succeeds iff -n <= i < n and then "
@@ -107,8 +107,8 @@ CLAIMED = {
        "values of different kinds are unequal; bool/int/string/() by value; floats by IEEE equality (symmetric, reflexive "
        "except NaN, NaN unequal to everything, +0 == -0); arrays and tuples element-wise, independent of the stored element "
        "type (whatever the provenance); structs as maps; functions and cells by identity; != is the negation of ==; == is "
-       "reflexive on values without NaN (induction on value size) and symmetric on struct-free values (struct symmetry needs a "
-       "counting argument, not yet proved: `_partial`). Tied to the implementation by value pairs built along 12 provenance "
+       "reflexive on values without NaN (induction on value size) and SYMMETRIC on all values whose structs have distinct keys "
+       "(veq_symm; maps by a pigeonhole argument on the key lists; for struct-free left operands no hypothesis is needed). Tied to the implementation by value pairs built along 12 provenance "
        "paths and viewed through exact / any static types, ==, != and match value arms, compared with Spec and with content "
        "equality computed in Python.",
   note=SPEC_NOTE, technique="Lean 4 proof over a total model of value equality + differential provenance pairs + content-equality oracle", ref="DESIGN.md §6 C19"),
